@@ -165,7 +165,16 @@ def _stdlib_method_names(tree, cls):
             imported.setdefault(st.targets[0].id, (imported[st.value.value.id][0], st.value.attr))
     local = dict((c.name, c) for c in tree.body if isinstance(c, ast.ClassDef))
     std = getattr(_sys, "stdlib_module_names", frozenset())
-    out, seen, todo = set(), set(), [cls]
+
+    def _local_ancestors(c, acc):
+        for b in c.bases:
+            if isinstance(b, ast.Name) and b.id in local and b.id not in acc:
+                acc.add(b.id)
+                _local_ancestors(local[b.id], acc)
+        return acc
+    # a mix-in: its methods shadow those of the standard-library bases of every class of the module that derives from it
+    users = [d for d in local.values() if d is not cls and cls.name in _local_ancestors(d, set())]
+    out, seen, todo = set(), set(), [cls] + users
     while todo:
         c = todo.pop()
         if c.name in seen:
